@@ -32,6 +32,10 @@ def run(tier: str, keep: bool = False) -> int:
     famD2 = f'Numbered({{ [SoloBase(1, 1, 2) EXCEPT !.fhD = f, !.immNak = FALSE] : f \\in {tablesD} }})'
     r.solo("dstAck", "D", famD2, ["fd", "fdodd", "eof", "eofodd", "tick", "poll"], 5 if q else 6, props, pre=[["md"]],
            limit=7000 if q else 250000)
+    # FILESTORE_REJECTION declared while the Metadata PDU is handled (create / truncate refused), first PDU or re-requested
+    famD3 = ('Numbered({ [SoloBase(1, 1, 2) EXCEPT !.mode = m, !.dstShape = sh, !.dstOld = <<9, 9>>, !.closure = TRUE, !.fhD = [FhDefault EXCEPT '
+             '!.FILESTORE_REJECTION = f]] : m \\in {"ACK", "UNACK"}, sh \\in {"file", "existing"}, f \\in {"ignore", "cancel", "abandon"} })')
+    r.solo("dstMdRej", "D", famD3, ["md", "mdwrej", "fd", "wrej", "eof", "poll", "tick"], 4 if q else 5, props, limit=5000 if q else 200000)
     tablesS = "{" + ", ".join(table(POSITIVE_ACK_LIMIT_REACHED=a, CHECK_LIMIT_REACHED=b) for a, b in itertools.product(CODES, CODES)) + "}"
     famS = f'Numbered({{ [SoloBase(1, 1, 1) EXCEPT !.mode = m, !.closure = TRUE, !.fhS = f] : m \\in {{"ACK", "UNACK"}}, f \\in {tablesS} }})'
     r.solo("src", "S", famS, ["poll", "tick", "cancel", "ack"], 8 if q else 9, props, pre=[["put"], ["poll"], ["poll"], ["poll"]])
